@@ -112,6 +112,11 @@ func (w *WindowCalculator) windowOffset(agentID identity.AgentID) time.Duration 
 func (w *WindowCalculator) cycleStart(t time.Time) time.Time {
 	elapsed := t.Sub(w.cfg.Epoch)
 	cycleNum := elapsed / w.cfg.CycleLength
+	if elapsed%w.cfg.CycleLength < 0 {
+		// Go division truncates toward zero; instants before the epoch
+		// belong to the cycle that starts before them (floor division).
+		cycleNum--
+	}
 	return w.cfg.Epoch.Add(cycleNum * w.cfg.CycleLength)
 }
 
